@@ -1,8 +1,8 @@
 import AsyncsshModel.Base.Hex
 /-
   One endpoint of an SSH channel: the send half and the receive half of `class SSHChannel`
-  (/repo/asyncssh/channel.py, tree with the fixes de5c08f, 53cd2ff, 024eb80, d334dad), transcribed between awaits as total
-  functions.
+  (/repo/asyncssh/channel.py, tree with the fixes de5c08f, 53cd2ff, 024eb80, d334dad, ae15f0e), transcribed between
+  awaits as total functions.
 
   send half    : `write` (896-950), `_flush_send_buf` (305-335), `write_eof` (981-997), `close` (768-786),
                  `_close_send` (250-260), `send_packet` (718-727: silently drops when `_send_chan is None`),
@@ -264,17 +264,38 @@ def flushRecv (c : Chan) : Option (Chan × List Msg × List Out) :=
     let r3 := closeStep c2
     some (r3.1, r.2.2.1 ++ ms2, r.2.2.2 ++ os2 ++ r3.2)
 
-/-- `_accept_data` -/
+/-- `_accept_data`.  Data that arrives after the local `close()` is dropped, and (since fix ae15f0e) the window it
+    used is given back at once: `self.send_packet(MSG_CHANNEL_WINDOW_ADJUST, UInt32(len(data)))` — which reaches the
+    wire only while the own CLOSE has not been sent (`send_packet` is a no-op once `_send_chan` is None).
+    `_recv_window` is NOT touched: it was never decremented for this data. -/
 def acceptData (c : Chan) (data : Bytes) (dt : DType) : Chan × List Msg × List Out :=
+  if data.isEmpty then (c, [], [])
+  else if c.sendState = .closePending ∨ c.sendState = .closed then (c, sendPkt c (.adjust data.length), [])
+  else if c.recvPaused ≠ .no then ({ c with recvBuf := c.recvBuf ++ [(data, dt)] }, [], [])
+  else deliverData c data dt
+
+/-- the same before fix ae15f0e: the window used by dropped data is lost to the peer -/
+def acceptDataPreCredit (c : Chan) (data : Bytes) (dt : DType) : Chan × List Msg × List Out :=
   if data.isEmpty then (c, [], [])
   else if c.sendState = .closePending ∨ c.sendState = .closed then (c, [], [])
   else if c.recvPaused ≠ .no then ({ c with recvBuf := c.recvBuf ++ [(data, dt)] }, [], [])
   else deliverData c data dt
 
+/-- `if self._recv_buf_len: self.send_packet(MSG_CHANNEL_WINDOW_ADJUST, UInt32(self._recv_buf_len))` in
+    `_discard_recv` (fix ae15f0e): the window used by the buffered data that is about to be discarded -/
+def discardCredit (c : Chan) : List Msg :=
+  if bufBytes c.recvBuf ≠ 0 then sendPkt c (.adjust (bufBytes c.recvBuf)) else []
+
 /-- `_discard_recv` -/
-def discardRecv (c : Chan) : Chan × List Out :=
+def discardRecv (c : Chan) : Chan × List Msg × List Out :=
   let c1 := { c with recvBuf := [], recvPaused := .no }
-  if c1.recvState = .closePending then ({ c1 with recvState := .closed }, [.lost]) else (c1, [])
+  if c1.recvState = .closePending then ({ c1 with recvState := .closed }, discardCredit c, [.lost])
+  else (c1, discardCredit c, [])
+
+/-- the same before fix ae15f0e -/
+def discardRecvPreCredit (c : Chan) : Chan × List Msg × List Out :=
+  let c1 := { c with recvBuf := [], recvPaused := .no }
+  if c1.recvState = .closePending then ({ c1 with recvState := .closed }, [], [.lost]) else (c1, [], [])
 
 /-- what the environment can do to one endpoint -/
 inductive Ev where
@@ -289,6 +310,14 @@ inductive Ev where
   deriving DecidableEq, Repr, Inhabited
 
 abbrev StepRes := Except Err (Chan × List Msg × List Out)
+
+/-- bytes an event makes the endpoint give up without delivering them, whose window it gives back instead (fix
+    ae15f0e): data dropped after the local `close()`, and the buffer `close()` discards -/
+def evCredit (ev : Ev) (c : Chan) : Nat :=
+  match ev with
+  | .recv (.data _ bs) => if c.sendState = .closePending ∨ c.sendState = .closed then bs.length else 0
+  | .close => bufBytes c.recvBuf
+  | _ => 0
 
 def liftSend (r : Option (Chan × List Msg)) : StepRes :=
   match r with
@@ -348,7 +377,7 @@ def step (c : Chan) : Ev → StepRes
     | some (c1, ms) =>
       if c1.recvState ≠ .closed then
         let r2 := discardRecv c1
-        .ok (r2.1, ms, r2.2)
+        .ok (r2.1, ms ++ r2.2.1, r2.2.2)
       else .ok (c1, ms, [])
   | .pause => .ok ({ c with recvPaused := .yes }, [], [])
   | .resume =>
@@ -411,7 +440,7 @@ def stepOld (c : Chan) : Ev → StepRes
     | some (c1, ms) =>
       if c1.recvState ≠ .closed then
         let r2 := discardRecv c1
-        .ok (r2.1, ms, r2.2)
+        .ok (r2.1, ms ++ r2.2.1, r2.2.2)
       else .ok (c1, ms, [])
   | .recv (.adjust n) =>
     if ¬ recvOpenish c.recvState then .error .notOpen
@@ -425,6 +454,28 @@ def stepOld (c : Chan) : Ev → StepRes
     if c.recvState ≠ .opn then .error .notOpen
     else liftRecv (flushRecvOld { c with recvState := .eofPending })
   | .recv .close => recvCloseOld c
+  | ev => step c ev
+
+/-- the endpoint as it was before fix ae15f0e (no window credit for data dropped after `close()` or discarded by
+    it), for the two events the fix touches; witness theorems only -/
+def stepPreCredit (c : Chan) : Ev → StepRes
+  | .recv (.data dt bs) =>
+    if c.recvState ≠ .opn then .error .notOpen
+    else if ¬ typeOk c.readTypes dt then .error .badExtType
+    else if (bs.length : Int) > c.recvWindow - bufBytes c.recvBuf then .error .windowExceeded
+    else .ok (acceptDataPreCredit c bs dt)
+  | .close =>
+    let r1 : Option (Chan × List Msg) :=
+      if c.sendState ≠ .closePending ∧ c.sendState ≠ .closed then
+        flushSend { c with sendEofPending := decide (c.sendState = .eofPending), sendState := .closePending }
+      else some (c, [])
+    match r1 with
+    | none => .error .spin
+    | some (c1, ms) =>
+      if c1.recvState ≠ .closed then
+        let r2 := discardRecvPreCredit c1
+        .ok (r2.1, ms ++ r2.2.1, r2.2.2)
+      else .ok (c1, ms, [])
   | ev => step c ev
 
 /-- a freshly opened channel endpoint: `window`/`max_pktsize` are what the *peer* advertised in
